@@ -772,7 +772,7 @@ def decorate_with_checker(func: CallableT) -> CallableT:
         async def wrapper(*args, **kwargs):  # type: ignore
             """Wrap func by checking the preconditions and postconditions."""
             kwargs_error = _assert_no_invalid_kwargs(kwargs)
-            if kwargs_error:
+            if kwargs_error is not None:
                 raise kwargs_error
 
             in_progress = _get_in_progress()
@@ -806,13 +806,13 @@ def decorate_with_checker(func: CallableT) -> CallableT:
                 type_error = _assert_resolved_kwargs_valid(
                     postconditions, resolved_kwargs
                 )
-                if type_error:
+                if type_error is not None:
                     raise type_error
 
                 violation_error = await _assert_preconditions_async(
                     preconditions=preconditions, resolved_kwargs=resolved_kwargs
                 )
-                if violation_error:
+                if violation_error is not None:
                     raise violation_error
 
                 # Capture the snapshots
@@ -837,7 +837,7 @@ def decorate_with_checker(func: CallableT) -> CallableT:
                     violation_error = await _assert_postconditions_async(
                         postconditions=postconditions, resolved_kwargs=resolved_kwargs
                     )
-                    if violation_error:
+                    if violation_error is not None:
                         raise violation_error
                 finally:
                     in_progress.discard(id_func)
@@ -849,7 +849,7 @@ def decorate_with_checker(func: CallableT) -> CallableT:
         def wrapper(*args, **kwargs):  # type: ignore
             """Wrap func by checking the preconditions and postconditions."""
             kwargs_error = _assert_no_invalid_kwargs(kwargs)
-            if kwargs_error:
+            if kwargs_error is not None:
                 raise kwargs_error
 
             in_progress = _get_in_progress()
@@ -883,7 +883,7 @@ def decorate_with_checker(func: CallableT) -> CallableT:
                 type_error = _assert_resolved_kwargs_valid(
                     postconditions=postconditions, resolved_kwargs=resolved_kwargs
                 )
-                if type_error:
+                if type_error is not None:
                     raise type_error
 
                 violation_error = _assert_preconditions(
@@ -891,7 +891,7 @@ def decorate_with_checker(func: CallableT) -> CallableT:
                     resolved_kwargs=resolved_kwargs,
                     func=func,
                 )
-                if violation_error:
+                if violation_error is not None:
                     raise violation_error
 
                 # Capture the snapshots
@@ -918,7 +918,7 @@ def decorate_with_checker(func: CallableT) -> CallableT:
                         resolved_kwargs=resolved_kwargs,
                         func=func,
                     )
-                    if violation_error:
+                    if violation_error is not None:
                         raise violation_error
                 finally:
                     in_progress.discard(id_func)
